@@ -90,10 +90,27 @@ def main():
     # run the checks against /repo with the patch applied, then undo
     detected = {}
     rc, st = sh(["git", "-C", "/repo", "status", "--porcelain", "--untracked-files=no"])
-    if st.strip():
+    if st.strip() and "--scratch" not in sys.argv:
         print("refusing: /repo has uncommitted changes")
         return 2
-    if meta.get("patch_applies"):
+    if meta.get("patch_applies") and "--scratch" in sys.argv:
+        # parallel-safe variant: the checks read a scratch copy of /repo's HEAD with the patch applied (VERIF_REPO), /repo is not touched
+        cp = "/tmp/seedv/copy-%s" % sid
+        shutil.rmtree(cp, ignore_errors=True)
+        os.makedirs(cp)
+        try:
+            sh("git -C /repo archive HEAD | tar -x -C %s" % cp)
+            sh(["git", "apply", os.path.join(os.path.abspath(src), "patch.diff")], cwd=cp)
+            envc = dict(os.environ, VERIF_REPO=cp, VERIF_EVIDENCE_DIR="/tmp/seedv/evidence-%s" % sid)
+            for p in props:
+                rc, out = sh([os.path.join(VERIF, "check"), p, "--tier", "quick"], cwd=VERIF, env=envc)
+                keys = [l.strip()[len("violation "):] for l in out.splitlines() if l.strip().startswith("violation [")]
+                detected[p] = {"rc": rc, "violations": [k[:240] for k in keys[:6]]}
+            meta["ran"].append("scratch copy of /repo HEAD + patch.diff; VERIF_REPO=<copy> ./check <each of %d properties> --tier quick" % len(props))
+        finally:
+            shutil.rmtree(cp, ignore_errors=True)
+            shutil.rmtree("/tmp/seedv/evidence-%s" % sid, ignore_errors=True)
+    elif meta.get("patch_applies"):
         try:
             rc, out = sh(["git", "-C", "/repo", "apply", os.path.join(src, "patch.diff")])
             envc = dict(os.environ, VERIF_EVIDENCE_DIR="/tmp/seedv/evidence-%s" % sid)
